@@ -77,12 +77,15 @@ func classify(cs *caseT, law, inCls, outCls, diff string) (sig, what string) {
 	il := parseLit(q.lit)
 	ol := parseLit(cs.lib.out)
 	what = fmt.Sprintf("%s %s denotes 0x%s (%s) but is printed as %s", q.kind, q.lit, cs.inR.bits, inCls, cs.lib.out)
+	if cs.in.via != "" {
+		what = fmt.Sprintf("constant.%s(%s, %v) (the value of %s, 0x%s, %s) is printed as %s", cs.in.via, q.kind, cs.in.val, q.lit, cs.inR.bits, inCls, cs.lib.out)
+	}
 	if law == "printed-rejected" {
 		what += fmt.Sprintf(", which llvm-as rejects: %s", cs.outR.diag)
-		return fmt.Sprintf("C10|%s|%s|printed-%s-rejected-by-llvm", q.kind, formName(il), formName(ol)), what
+		return fmt.Sprintf("C10|%s|%s|printed-%s-rejected-by-llvm", q.kind, spelling(cs, il), formName(ol)), what
 	}
 	what += fmt.Sprintf(", which denotes 0x%s (%s)", cs.outR.bits, outCls)
-	generic := fmt.Sprintf("C10|%s|%s|%s->%s|changed:%s", q.kind, formName(il), inCls, outCls, diff)
+	generic := fmt.Sprintf("C10|%s|%s|%s->%s|changed:%s", q.kind, spelling(cs, il), inCls, outCls, diff)
 	if ol.Form == "dec" {
 		generic += "|printed-decimal"
 	}
@@ -119,6 +122,24 @@ func classify(cs *caseT, law, inCls, outCls, diff string) (sig, what string) {
 			if a < 1<<52+1 && b < 1<<52+1 && (a-b == 1 || b-a == 1) {
 				return "C10|double|decimal|subnormal-range|rounded-twice", what
 			}
+		}
+	}
+	// A finite value printed in decimal whose digits denote the NEIGHBOUR (one ulp away, same sign): the
+	// shortest-digits search of the printer.  "power-of-two": the value is a power of two (mantissa field
+	// zero, or a single bit in the subnormal range), where the interval of values that round to it is half
+	// as wide below as above; "other": any other value.
+	if (q.kind == "half" || q.kind == "float" || q.kind == "double") && ol.Form == "dec" && len(cs.inR.bits) <= 16 && len(cs.outR.bits) == len(cs.inR.bits) {
+		finite := func(c string) bool { return c == "zero" || c == "subnormal" || c == "normal" }
+		a, b := u64(cs.inR.bits), u64(cs.outR.bits)
+		if finite(inCls) && finite(outCls) && !strings.Contains(diff, "s") && (a-b == 1 || b-a == 1) {
+			manW := map[string]uint{"half": 10, "float": 23, "double": 52}[q.kind]
+			man := a & (1<<manW - 1)
+			exp := a >> manW & (1<<(uint(len(cs.inR.bits))*4-1-manW) - 1)
+			cls := "other"
+			if man == 0 || (exp == 0 && man&(man-1) == 0) {
+				cls = "power-of-two"
+			}
+			return fmt.Sprintf("C10|%s|%s|printed-decimal-denotes-neighbour|%s", q.kind, spelling(cs, il), cls), what
 		}
 	}
 	if q.kind == "half" && il.Form == "dec" && inCls == "inf" && outCls != "inf" {
